@@ -18,7 +18,7 @@ func TestVerif(t *testing.T) {
 			"LimitedStorage(limit=Size-1/Size/Size+1), oci.Storage, oci.Store, file.Store named, file.Store unnamed (memory fallback and OCI fallback), and through cas.Proxy (no limit, limit=Size-1/Size/Size+1; FetchAll and read-to-EOF consumers; cache fill + second fetch; each case runs in its own testing/synctest bubble, where a virtual-time timer can only fire when every goroutine is blocked for ever, so a fetch that never returns is a deterministic verdict). " +
 			"Oracle (hand-computed sha256/sha512 of the generator's own bytes): Push may return nil only if the stream holds at least Size bytes and the first Size bytes hash to Digest (Size>=0, digest well-formed and supported); after a failed such push Exists is false, Fetch fails and blobs/ has no new regular file; " +
 			"data handed back without error equals the named content, and bytes beyond Size are an error for ReadAll/FetchAll/VerifyReader/CopyBuffer. Not judged (counted as note:*): refusing good content, Push accepting/refusing bytes beyond Size, reader errors after Size bytes, ingest/ leftovers. " +
-			"concurrent: 2-3 goroutines pushing {good, wrong bytes, early EOF, reader error, extra byte} under one digest (+ an observer fetching twice) into 8 store kinds under every schedule within D<=3 deviations around 3 base schedulers and P<=2 [P<=3] preemptions around the 2 non-preemptive ones for two pushers, D<=2 [D<=3] with an observer, D<=2 for three pushers; bad pushes must fail, every successful Fetch (during or after) must hand back exactly the good bytes, nothing visible / no blob file if every push failed, every file under blobs/ hashes to its name. " +
+			"concurrent: 2-3 goroutines pushing {good, wrong bytes, early EOF, reader error, extra byte} under one digest (+ an observer fetching twice) into 8 store kinds under every schedule within D<=3 deviations around 3 base schedulers and P<=2 [P<=3] preemptions around the 2 non-preemptive ones for two pushers, D<=2 with an observer and for three pushers; bad pushes must fail, every successful Fetch (during or after) must hand back exactly the good bytes, nothing visible / no blob file if every push failed, every file under blobs/ hashes to its name. " +
 			"non-trivial = distinct (target, content, descriptor, stream) other than exact content from a cleanly ending reader, and distinct non-default schedules",
 		Assumptions: []string{
 			"stores are fresh per case (history dependence is C06's subject); media type is application/octet-stream",
